@@ -137,3 +137,9 @@ def c02_obligations(ctx, pre, si, tag, kind, idx=None):
             ctx.prove(f'{tag}:snr_nli_unchanged[{i}]', eq(s1 * n0, s0 * n1))
         elif kind == 'fiber':
             ctx.prove(f'{tag}:osnr_ase_unchanged[{i}]', eq(s1 * a0, s0 * a1))
+
+
+def design(graph, eqpt, **kw):
+    """auto-design through the real entry point gnpy.tools.worker_utils.designed_network"""
+    from gnpy.tools.worker_utils import designed_network
+    return designed_network(eqpt, graph, **kw)
